@@ -28,6 +28,7 @@ RULE += ("  " + 'Also (round 7): download over a stale local copy of the same la
 RULE += ("  " + 'Also (round 8): one Client object, two sessions on two servers: upload and recursive listing of the second are complete.')
 RULE += ("  " + 'Also (round 9): entries that carry the name of their own directory (d/d as the first file, addressed by the bare relative name); the same client uploading, removing and uploading the same destination again.')
 RULE += ("  " + 'Also (round 10): remove on a LIST-only server whose storage takes 5 ms per stat; a download whose local destination is a directory (ordinary exception, client goes on); the first storage call behind remove() fails: remove() raises and does not return with the tree intact.')
+RULE += ("  " + 'Also (round 11): sibling pairs differing by a temporary-file suffix (n / n.part, x.tmp / x, f / f~), local listing in ascending and descending order.')
 ASSUMPTIONS = ["documented placement rule: destination/source.name/... by default, destination/... with write_into",
                "names are plain (C08 covers metacharacters)"]
 REQUIRED_MONITORS = ["upload_tree", "download_tree", "recursive_list", "remove_tree"]
